@@ -65,6 +65,7 @@ func run(v *viper.Viper) error {
 	if err != nil {
 		return err
 	}
+	verifDumpServer(s)
 
 	profileAddr := v.GetString(ParamProfile)
 	if profileAddr != "" {
